@@ -13,6 +13,7 @@ import (
 	"strconv"
 	"strings"
 
+	"github.com/tonkeeper/tongo/abi"
 	"github.com/tonkeeper/tongo/boc"
 	"github.com/tonkeeper/tongo/tlb"
 )
@@ -748,6 +749,12 @@ func init() {
 			v.FieldByName("KeyBlock").SetBool(true)
 			g.Fill(v.FieldByName("Config"), "", 4)
 		},
+		// abi payload / body unions: SumType + OpCode + Value any. A value of a known kind carries that kind's struct and op code,
+		// an unknown one a cell starting with an op code nobody knows, the empty one nothing.
+		reflect.TypeOf(abi.JettonPayload{}): payloadGen(abi.KnownJettonTypes, func(n string) (uint32, bool) { c, ok := abi.JettonOpCodes[n]; return c, ok }, abi.UnknownJettonOp),
+		reflect.TypeOf(abi.NFTPayload{}):    payloadGen(abi.KnownNFTTypes, func(n string) (uint32, bool) { c, ok := abi.NFTOpCodes[n]; return c, ok }, abi.UnknownNFTOp),
+		reflect.TypeOf(abi.InMsgBody{}):     payloadGen(abi.KnownMsgInTypes, func(n string) (uint32, bool) { c, ok := MsgOpCodes[""][n]; return c, ok }, abi.UnknownMsgOp),
+		reflect.TypeOf(abi.ExtOutMsgBody{}): payloadGen(abi.KnownMsgExtOutTypes, func(n string) (uint32, bool) { c, ok := MsgOpCodes["ExtOut"][n]; return c, ok }, abi.UnknownMsgOp),
 		reflect.TypeOf(tlb.VmCellSlice{}): func(g *Gen, v reflect.Value) {
 			// all fields are unexported: the only way to a value is the library's own constructor
 			sv, err := tlb.CellToVmCellSlice(randCell(g.Rng, 1))
@@ -755,6 +762,42 @@ func init() {
 				v.Set(reflect.ValueOf(sv.VmStkSlice))
 			}
 		},
+	}
+}
+
+// payloadGen: generator for the abi unions {SumType, OpCode *uint32, Value any}.
+func payloadGen(known map[string]any, code func(string) (uint32, bool), unknown string) func(g *Gen, v reflect.Value) {
+	var names []string
+	for n := range known {
+		if _, ok := code(n); ok {
+			names = append(names, n)
+		}
+	}
+	sort.Strings(names)
+	return func(g *Gen, v reflect.Value) {
+		setOp := func(op uint32) { v.FieldByName("OpCode").Set(reflect.ValueOf(&op)) }
+		switch r := g.Rng.Intn(12); {
+		case r == 0 || len(names) == 0:
+			v.FieldByName("SumType").SetString("")
+		case r == 1:
+			op := uint32(0xfffffff0 + g.Rng.Intn(15))
+			c := boc.NewCell()
+			_ = c.WriteUint(uint64(op), 32)
+			for i := g.Rng.Intn(40); i > 0; i-- {
+				_ = c.WriteBit(g.Rng.Intn(2) == 1)
+			}
+			v.FieldByName("SumType").SetString(unknown)
+			setOp(op)
+			v.FieldByName("Value").Set(reflect.ValueOf(c))
+		default:
+			n := names[g.Rng.Intn(len(names))]
+			val := reflect.New(reflect.TypeOf(known[n])).Elem()
+			g.Fill(val, "", 4)
+			op, _ := code(n)
+			v.FieldByName("SumType").SetString(n)
+			setOp(op)
+			v.FieldByName("Value").Set(val)
+		}
 	}
 }
 
@@ -802,6 +845,8 @@ var DictBits bool
 var SchemaShape bool
 
 var tVmCellSlice = reflect.TypeOf(tlb.VmCellSlice{})
+var payloadTypes = map[reflect.Type]bool{reflect.TypeOf(abi.JettonPayload{}): true, reflect.TypeOf(abi.NFTPayload{}): true,
+	reflect.TypeOf(abi.InMsgBody{}): true, reflect.TypeOf(abi.ExtOutMsgBody{}): true}
 
 func vmSliceDump(x tlb.VmCellSlice) (out any) {
 	defer func() {
@@ -816,6 +861,20 @@ func dump(v reflect.Value, tag string, depth int) any {
 	t := v.Type()
 	if depth > 40 {
 		return "…"
+	}
+	if _, ok := payloadTypes[t]; ok {
+		out := M{"c": v.FieldByName("SumType").String(), "op": "none", "v": "none"}
+		if p := v.FieldByName("OpCode"); !p.IsNil() {
+			out["op"] = strconv.FormatUint(p.Elem().Uint(), 10)
+		}
+		if iv := v.FieldByName("Value"); !iv.IsNil() {
+			if c, ok := iv.Interface().(*boc.Cell); ok {
+				out["v"] = Tree(c)
+			} else {
+				out["v"] = dump(iv.Elem(), "", depth+1)
+			}
+		}
+		return out
 	}
 	if t == tVmCellSlice {
 		// the fields are unexported: the abstract value of a slice is the cell Cell() cuts out of its source
